@@ -136,7 +136,12 @@ def assign(f):
             return fid
     if not f.get("group"):
         return None
-    return f"{f['prop']}-{f['group']}"
+    if f["prop"] == "C18":
+        return f"C18-{f['cls']}"  # kind@enclosing CST node type of the offending gap
+    owners = f["group"].split("@", 1)[-1]
+    if owners.startswith("default:"):
+        owners = "default-rendering"
+    return f"{f['prop']}-{f['cls'].split(':')[0]}@{owners}"
 
 
 def meta_for(fid, f):
@@ -150,7 +155,7 @@ def meta_for(fid, f):
     if suffix in E2_META:
         return {"summary": E2_META[suffix][0], "root_cause": E2_META[suffix][1], "why_not_fixed": "recorded, not repaired in this session (behavioural change wider than a minimal patch); see DESIGN.md section 3"}
     return {
-        "summary": f"{f['cls']} - deviating gap(s) in: {f['group'].split('@', 1)[-1]}",
+        "summary": (f"{f['cls'].split('@')[0]} inside a {f['cls'].split('@')[-1]} node of the output" if f["prop"] == "C18" else f"{f['cls']} - deviating gap(s) in: {f['group'].split('@', 1)[-1].split(':')[0]}"),
         "root_cause": "see DESIGN.md section 3 (grouped by discrepancy class and the construct whose gap deviates)",
         "why_not_fixed": "recorded, not repaired: one of many independent per-construct trivia-handling defects; see DESIGN.md section 3",
     }
